@@ -210,6 +210,87 @@ type driver struct {
 	roots   bool              // add the digests of every directory of the scratch tree to http events
 }
 
+func (d *driver) waitTracks(id string, n, ms int) {
+	deadline := time.Now().Add(time.Duration(ms) * time.Millisecond)
+	var count func(x any) int
+	count = func(x any) int {
+		switch v := x.(type) {
+		case map[string]any:
+			if str(v["id"]) == id {
+				if ts, ok := v["tracks"].([]any); ok {
+					return len(ts)
+				}
+			}
+			best := -1
+			for _, y := range v {
+				if c := count(y); c > best {
+					best = c
+				}
+			}
+			return best
+		case []any:
+			best := -1
+			for _, y := range v {
+				if c := count(y); c > best {
+					best = c
+				}
+			}
+			return best
+		}
+		return -1
+	}
+	// who holds what, as the server's statistics tell it
+	shape := func(v any) string {
+		out := []string{}
+		gs, _ := v.([]any)
+		for _, g := range gs {
+			gm, _ := g.(map[string]any)
+			cs, _ := gm["clients"].([]any)
+			for _, c := range cs {
+				cm, _ := c.(map[string]any)
+				for _, dir := range []string{"up", "down"} {
+					conns, _ := cm[dir].([]any)
+					for _, cn := range conns {
+						cnm, _ := cn.(map[string]any)
+						ts, _ := cnm["tracks"].([]any)
+						out = append(out, fmt.Sprintf("%s/%s/%s/%s/%d", str(gm["name"]), str(cm["id"]), dir, str(cnm["id"]), len(ts)))
+					}
+				}
+			}
+		}
+		sort.Strings(out)
+		return strings.Join(out, " ")
+	}
+	got, stable, prev, same := -1, 0, "?", 0
+	var since time.Time
+	for time.Now().Before(deadline) {
+		r := d.doHTTP("", "GET", "/galene-api/v0/.stats", nil, "", "root", "rootpw", false)
+		var v any
+		if json.Unmarshal([]byte(str(r["rawbody"])), &v) == nil {
+			got = count(v)
+			sh := shape(v)
+			if got >= n {
+				if since.IsZero() {
+					since = time.Now()
+				}
+				if sh == prev {
+					same++
+				} else {
+					same = 0
+				}
+				// complete for 450 ms (the server pushes a connection 200 ms after its last track arrived) and nothing moved for 300 ms
+				if time.Since(since) > 450*time.Millisecond && same >= 3 {
+					stable = 1
+					break
+				}
+			}
+			prev = sh
+		}
+		time.Sleep(100 * time.Millisecond)
+	}
+	d.emit(map[string]any{"ev": "waited", "id": id, "want": n, "got": got, "stable": stable})
+}
+
 // digests of the directories the server is configured with, and of what lies next to them
 func (d *driver) rootDigests() map[string]any {
 	r := d.srv.root
@@ -482,6 +563,7 @@ func (d *driver) reader(c *client) {
 			d.gotICE(c, m)
 			continue
 		case "answer":
+			d.emit(map[string]any{"ev": "answered", "c": c.name, "id": str(m["id"])})
 			d.gotAnswer(c, m)
 			continue
 		case "offer":
@@ -1137,7 +1219,11 @@ func (d *driver) runBeh(b beh, idx int) {
 		case "noanswer":
 			if c := d.clients[str(st[1])]; c != nil {
 				c.answer = false
+				d.emit(map[string]any{"ev": "noanswer", "c": c.name})
 			}
+		case "waittracks":
+			// until the server's statistics show stream st[1] with st[2] tracks (the publication is complete), at most st[3] ms
+			d.waitTracks(str(st[1]), num(st[2]), num(st[3]))
 		case "settle":
 			d.settle()
 		case "rawhttp":
